@@ -111,7 +111,7 @@ func (g *concGen) next() *Call {
 		c = NewCall("READ")
 		c.Fh = anyFile()
 		c.Off = []int{0, 100, 4096, 8000, 30000}[g.r.Intn(5)]
-		c.Cnt = []int{100, 4096, 20000}[g.r.Intn(3)]
+		c.Cnt = []int{100, 4096, 20000}[g.r.Intn(3)] // all below rtmax
 	case p < 86:
 		c = NewCall("SETATTR")
 		c.Fh = anyFile()
